@@ -8,7 +8,8 @@ EXPLANATION = (
     'and matching filter data are reachable only in worlds where the peer has a prove state, start_number == min_filtered+1, '
     'the filter and hash vectors have equal non-zero length, and no computed filter hash differed from the expected one; (r2) '
     'the accepted prefix: the limit given to check_filters_data, the take() of the verified loop, the recorded count and the new '
-    'filtered height all derive from min(filters, known hashes); (r3) expected hashes and the parent hash originate only from '
+    'filtered height all derive from min(filters, known hashes), the matched blocks recorded are the result of check_filters_data, and '
+    'the loop zips the filters with the whole vector whose length bounds the limit; (r3) expected hashes and the parent hash originate only from '
     'finalized check points, the cached hashes and the quorum-agreed latest hashes; (r4) height binding: a block hash taken from '
     'the message must be tied to the height of its filter before the block is indexed.')
 NOT_DECIDED = 'Quorum semantics of get_latest_block_filter_hashes (see C07); GCS filter matching itself (golomb-coded-set, trusted).'
